@@ -139,6 +139,13 @@ class StoreDriver:
                                                                  'directory': a, 'marlin_la_url': '', 'playready_la_url': '',
                                                                  'timing_ref': b})
             return r.status_code, 1 if r.status_code == 200 and srow else 0, spk
+        if op == 'rename_stream':
+            spk = self._spk(st, a) or 9999
+            srow = next((x for x in st['streams'] if x['pk'] == spk), None)
+            r = s.request('POST', f'/stream/{spk}?ajax=1', json={'csrf_token': s.mint('streams'), 'title': f'Stream {a} renamed',
+                                                                 'directory': b, 'marlin_la_url': '', 'playready_la_url': '',
+                                                                 'timing_ref': (srow or {}).get('tref') or ''})
+            return r.status_code, 1 if r.status_code == 200 and srow else 0, spk
         if op == 'add_key':
             r = s.request('PUT', f'/key?kid={a}&csrf_token={s.mint("keys")}')
             js = r.get_json(silent=True) or {}
@@ -205,6 +212,9 @@ SCRIPTS = [
      ('delete_stream', 's1', '')],
     [('add_stream', 's2', ''), ('upload', 's2', 'fv'), ('edit_media', 'fv', 'xyz'), ('set_tref', 's2', 'fv'), ('edit_media', 'nope', 'eng'),
      ('delete_media', 'fv', '')],
+    # editing a stream's directory: allowed while it is empty, must not strand the blobs of a stream that has media files
+    [('add_stream', 's1', ''), ('rename_stream', 's1', 's2'), ('upload', 's2', 'fv'), ('set_tref', 's2', 'fv'), ('rename_stream', 's2', 's1'),
+     ('upload', 's2', 'fa'), ('add_stream', 's1', ''), ('rename_stream', 's1', 's2'), ('delete_stream', 's2', '')],
     # a period keeps pointing at a deleted stream
     [('add_stream', 's1', ''), ('upload', 's1', 'fv'), ('set_tref', 's1', 'fv'), ('add_mps', 'mm1', 's1'), ('delete_stream', 's1', '')],
     # replace a stream by adding its directory again
@@ -231,13 +241,15 @@ def random_history(rng: random.Random, n: int) -> list[tuple[str, str, str]]:
     h: list[tuple[str, str, str]] = [('add_stream', rng.choice(DIRS), '')]
     for _ in range(n):
         op = rng.choice(['add_stream', 'delete_stream', 'upload', 'upload', 'upload', 'delete_media', 'set_tref', 'set_tref',
-                         'add_key', 'delete_key', 'add_mps', 'delete_mps', 'edit_media'])
+                         'add_key', 'delete_key', 'add_mps', 'delete_mps', 'edit_media', 'rename_stream'])
         if op in ('add_stream', 'delete_stream'):
             h.append((op, rng.choice(DIRS), ''))
         elif op == 'upload':
             h.append((op, rng.choice(DIRS), rng.choice(NAMES)))
         elif op == 'set_tref':
             h.append((op, rng.choice(DIRS), rng.choice(NAMES[:2])))
+        elif op == 'rename_stream':
+            h.append((op, rng.choice(DIRS), rng.choice(DIRS)))
         elif op == 'delete_media':
             h.append((op, rng.choice(NAMES), ''))
         elif op == 'edit_media':
